@@ -22,7 +22,12 @@ def lam(pi, seed):
     int() truncation (vs round) of the intervals is observable."""
     def f(step):
         return 0.55 + 0.3 * ((step + pi + seed) % 5) + 0.01 * pi
-    return f
+
+    def milestone(step):
+        # exactly 1.0 on every other step (shifted per parameter), a
+        # non-integer factor otherwise
+        return 1.0 if (step + pi) % 2 == 0 else 0.6 + 0.25 * pi
+    return milestone if seed >= 1000 else f
 
 
 def mk_precond(callable_params=(), init='float'):
@@ -204,7 +209,9 @@ def main(run: core.Run):
     core.pmap(run, subset_case,
               [(s, depth, run.seed, 'float') for s in subsets] +
               [(s, min(depth, 6 if thorough else 4), run.seed, 'int')
-               for s in subsets],
+               for s in subsets] +
+              [(s, min(depth, 6 if thorough else 4), 1000 + run.seed, 'float')
+               for s in subsets if len(s) >= 2],
               chunk=1)
     core.pmap(run, ctor_case, [(cp, s) for cp in [None] + PARAMS
                                for s in subsets], chunk=64)
@@ -219,7 +226,7 @@ def main(run: core.Run):
         f'history BFS to depth {depth} over {{step(), step(0), step(3), '
         'step(7), advance the preconditioner step}} for all 64 subsets of '
         'scheduled parameters with distinct strictly step-dependent '
-        'non-integer factor functions, for float-valued and int-valued '
+        'non-integer factor functions (and a milestone family that returns exactly 1.0 on alternating steps), for float-valued and int-valued '
         'initial constants, each history once with the properties read only at the end and once read after every operation, in lock-step with a dictionary '
         'reference (exact float equality; states deduplicated by '
         'hyper-parameter tuple); constructor: 7 x 64 (callable parameter, '
